@@ -12,7 +12,7 @@
      c ? a : b    c ; jne |a|+1 ; a ; jmp |b| ; b
      [e1..en]     e1 .. en ; push.arr n
      e[i]         e ; i ; item.get
-     XdY          mark.detail ; X ; dice.init ; dice.setTimes ; Y ; dice
+     XdY          X ; dice.init ; dice.setTimes ; Y ; mark.detail ; dice   (the span is written by detailEnd)
      if c {A} else {B}   c ; block.push ; jne |A|+1 ; A ; jmp |B| ; B ; block.pop
                          (the block height is saved AFTER the condition was pushed)
      while c {A}  block.push ; L: c ; jne |A|+1 ; A ; jmp ->L ; X: block.pop
@@ -62,8 +62,8 @@ Fixpoint compile_expr (e : expr) : code :=
     ++ [I OpPushArr (OInt (zlen l))]
   | EIdx b i => compile_expr b ++ compile_expr i ++ [I OpItemGet ONil]
   | ERoll x y =>
-    [I OpMarkDetail (OSpan 0 0)] ++ compile_expr x ++ [I OpDiceInit ONil; I OpDiceSetTimes ONil]
-    ++ compile_expr y ++ [I OpDice ONil]
+    compile_expr x ++ [I OpDiceInit ONil; I OpDiceSetTimes ONil]
+    ++ compile_expr y ++ [I OpMarkDetail (OSpan 0 0); I OpDice ONil]
   end.
 
 (* number of instructions of a statement (depends on d through break / continue) *)
